@@ -59,6 +59,7 @@ type PropSpec struct {
 	Assume    []string          `json:"assumptions"`
 	Outside   []string          `json:"outside_bounds"`
 	Bounds    map[string]string `json:"bounds"`
+	BuildTags string            `json:"build_tags"` // extra build tags for loading the tree (e.g. purego)
 }
 
 type WorkItem struct {
